@@ -86,9 +86,11 @@ pub(crate) fn raw_string(input: &[u8]) -> IResult<&[u8], Cow<'_, str>> {
                     return Err(nom::Err::Error(NomError::new(input, ErrorKind::Char)));
                 }
             }
-            b' ' | b',' | b'.' | b':' | b'{' | b'}' | b'[' | b']' | b'(' | b')' | b'?' | b'@'
-            | b'$' | b'|' | b'<' | b'>' | b'!' | b'=' | b'+' | b'-' | b'*' | b'/' | b'%' | b'"'
-            | b'\'' => {
+            // white space other than a blank and `&` end an unquoted name too
+            // (`$.a\n.b`, `@.a&&@.b`), like the other operator characters
+            b' ' | b'\t' | b'\n' | b'\r' | b'&' | b',' | b'.' | b':' | b'{' | b'}' | b'[' | b']'
+            | b'(' | b')' | b'?' | b'@' | b'$' | b'|' | b'<' | b'>' | b'!' | b'=' | b'+' | b'-'
+            | b'*' | b'/' | b'%' | b'"' | b'\'' => {
                 break;
             }
             _ => {
